@@ -74,7 +74,14 @@ def collides(w, children, parent):
     subset = set(sub)
     uu = [m.nodes[l].uuid for l in subset]
     if ir is None:
-        return False
+        # no IR above: the tree the children would join must still name each node uniquely
+        # (one UUID = one node is the premise of every statement; with two siblings under one
+        # UUID not even "sort the children by UUID" is an order - found by a soak at seed 91
+        # once nil UUIDs were drawn on purpose)
+        root = parent
+        while m.nodes[root].parent is not None:
+            root = m.nodes[root].parent
+        ir = root
     if len(set(uu)) != len(uu):
         return True
     others = [l for l in m.subtree(ir) if l not in subset]
@@ -161,6 +168,11 @@ class New(Op):
             ir = None
             if par is not None:
                 ir = par if m.nodes[par].kind == "ir" else m.ir_of(par)
+                if ir is None:
+                    # no IR above: uniqueness within the detached tree the node joins (see collides)
+                    ir = par
+                    while m.nodes[ir].parent is not None:
+                        ir = m.nodes[ir].parent
             sub = set()
             for k in kids:
                 sub.update(m.subtree(k))
